@@ -4,7 +4,7 @@ import os, json
 import vlib
 
 LEVEL = "model_checking"
-INVS = "Frame ExactDomain AliasLaws HistoryLaw ComposeLaw BlockedIsPlain Emit"
+INVS = "Frame ExactDomain AliasLaws HistoryLaw ViewLaw ComposeLaw BlockedIsPlain Emit"
 
 
 def cfg_text(fam, maxlen, pal):
@@ -13,18 +13,21 @@ def cfg_text(fam, maxlen, pal):
 
 
 def configs(tier):
+    # (family, MaxLen, palette); family "view" = ranged views into parents of length 1..MaxLen
     # (family, MaxLen, palette): dense lengths 0..9 (0, 1, non-multiples of every stride <= 8), block sizes 1..4
     if tier == "thorough":
         return [("dense", 16, 1), ("dense", 16, 2), ("dense", 12, 3),
                 ("blocked", 8, 1), ("blocked", 8, 2), ("blocked", 5, 3),
                 ("tuple", 5, 1), ("tuple", 5, 2), ("tuple", 4, 3),
                 ("power", 5, 1), ("power", 5, 2), ("power", 4, 3),
-                ("sparse", 7, 1), ("sparse", 7, 3), ("sblocked", 5, 1), ("sblocked", 5, 2)]
+                ("sparse", 7, 1), ("sparse", 7, 3), ("sblocked", 5, 1), ("sblocked", 5, 2),
+                ("view", 5, 1), ("view", 5, 2), ("view", 4, 3)]
     return [("dense", 9, 1), ("dense", 9, 2), ("dense", 9, 3),
             ("blocked", 4, 1), ("blocked", 4, 2), ("blocked", 3, 3),
             ("tuple", 2, 1), ("tuple", 2, 2), ("tuple", 2, 3),
             ("power", 2, 1), ("power", 2, 2), ("power", 2, 3),
-            ("sparse", 4, 1), ("sparse", 4, 3), ("sblocked", 3, 1), ("sblocked", 3, 2)]
+            ("sparse", 4, 1), ("sparse", 4, 3), ("sblocked", 3, 1), ("sblocked", 3, 2),
+            ("view", 3, 1), ("view", 3, 2)]
 
 
 def generate(chk, tier):
@@ -78,13 +81,15 @@ def sig(c, r):
     if c["fam"] in ("sparse", "sblocked"):
         s["partial"] = stored(c) < sh["n"]          # fewer stored entries than the vector is long
         s["overfull"] = len(sh["ins"]) > sh["n"]    # more insertions than the initial allocation min(size, 1000)
+    if c["fam"] == "view":
+        s["kind"] = sh["k"]; s["bs"] = sh["bs"]; s["twin"] = c["twin"]; s["sibling"] = sh["sib"] >= 0
     if c["op"] in ("component_copy", "component_copy_to"):
         s["blk_ge_size"] = c["blk"] >= sh["n"]      # component index >= number of blocks
     return s
 
 
 def key(c):
-    return json.dumps([c["fam"], c["pal"], c["shape"], c["op"], c["x"], c["y"], c["an"], c["ad"], c["blk"]])
+    return json.dumps([c["fam"], c["pal"], c["shape"], c["op"], c["x"], c["y"], c["an"], c["ad"], c["blk"], c.get("twin")])
 
 
 def run(chk):
@@ -103,7 +108,7 @@ def run(chk):
     chk.extra["cases_with_aliasing"] = sum(1 for c in cases if alias(c) != "none")
     chk.extra["cases_on_empty_vectors"] = sum(1 for c in cases if c["flen"] == 0)
     chk.rule = ("every post-state of spec/VecOps.tla: all shapes of the family (dense lengths 0..L, DenseVectorBlocked<1..4>, "
-                "SparseVector/SparseVectorBlocked given by write histories over every index subset (ascending, descending, and three histories with overwritten entries whose superseded value is +2000 / -2000 / 0, i.e. more extreme than every live entry), the call under test issued as the first access after the writes and again after a full read-back, 10 Tuple/Power compositions "
+                "ranged views DenseVector(src,n,off) / DenseVectorBlocked<1..3>(src,n,off) over every window of parents of length 1..L (every operation on the view, on a second view object of the same window, on a disjoint sibling view of the same parent and on the parent itself, clone(Deep) of a view; parents compared outside and inside the window), SparseVector/SparseVectorBlocked given by write histories over every index subset (ascending, descending, and three histories with overwritten entries whose superseded value is +2000 / -2000 / 0, i.e. more extreme than every live entry), the call under test issued as the first access after the writes and again after a full read-back, 10 Tuple/Power compositions "
                 "up to depth 2 with component lengths 0..L), every operation, every aliasing pattern the signature admits, "
                 "alpha in {0,1,-1,2,-1/2,-5/2}, three value palettes; each case replayed for double/uint64 and float/uint32 "
                 "(dense and blocked also double/uint32, float/uint64); non-trivial = non-empty vector; distinct = distinct "
